@@ -88,11 +88,19 @@ type c03Case struct {
 
 	// DB is the state of the profile database with regard to prof1 / dev1:
 	// normal, deleted, deleted-nodevs, detached, moved, noprofile, readdressed,
-	// reassigned, auto-moved.
+	// reassigned, auto-moved, auth-changed (dev1 was synchronised first with
+	// authentication off, then with the policy of the case).
 	DB string `json:"db"`
 
 	// Auto tells whether prof1 has automatic devices enabled.
 	Auto bool `json:"auto_devices"`
+
+	// Via tells how the change of the database state was delivered: "" by an
+	// ordinary partial synchronisation; "fullfail" by a FULL synchronisation
+	// whose file-cache write fails (full disk, removed directory), followed
+	// by After successful partial synchronisations that report no change.
+	Via   string `json:"via,omitempty"`
+	After int    `json:"after,omitempty"`
 }
 
 // The fixed world.  prof1 owns dev1 (policy under test) and the automatic
@@ -171,6 +179,8 @@ func c03NewWorld(c c03Case, created []c03Created) (w *c03World) {
 		w.owner[c03Dev1] = c03Prof2
 	case "auto-moved":
 		w.owner[c03Auto1] = c03Prof2
+	case "auth-changed":
+		// The latest synchronised policy is the one of the case.
 	case "readdressed", "reassigned":
 		// dev1 got a new linked IP and lost its dedicated address; in state
 		// reassigned its old linked IP now belongs to dev3.
@@ -519,10 +529,14 @@ func c03Describe(c c03Case) (s string) {
 	if c.OPT {
 		opts = fmt.Sprintf("opts %q", c.Opts)
 	}
+	via := ""
+	if c.Via != "" {
+		via = fmt.Sprintf(" (delivered by a full sync whose cache write failed, then %d partial syncs)", c.After)
+	}
 
 	return fmt.Sprintf(
-		"[%s path=%q userinfo=%q sni=%q %s %s->%s | linked=%v ifaces=%v domains=%v | dev1 auth=%s db=%s auto=%v]",
-		c.Proto, c.Path, ui, c.SNI, opts, c.Raddr, c.Laddr, c.Linked, c.Ifaces, c.Domains, c.Auth, c.DB, c.Auto,
+		"[%s path=%q userinfo=%q sni=%q %s %s->%s | linked=%v ifaces=%v domains=%v | dev1 auth=%s db=%s%s auto=%v]",
+		c.Proto, c.Path, ui, c.SNI, opts, c.Raddr, c.Laddr, c.Linked, c.Ifaces, c.Domains, c.Auth, c.DB, via, c.Auto,
 	)
 }
 
@@ -553,24 +567,32 @@ func c03Hash(pw string) (h []byte) {
 }
 
 // c03Storage is a scripted profiledb.Storage: the first call to Profiles is
-// the full synchronisation, the second one the partial update.
+// the initial full synchronisation, the second one delivers the change of the
+// case (partial, or full when the case says so), later ones report no change.
 type c03Storage struct {
 	full    *profiledb.StorageProfilesResponse
 	partial *profiledb.StorageProfilesResponse
 	calls   int
 	created []c03Created
+
+	// wasFull records, per call, whether the database asked for everything.
+	wasFull []bool
 }
 
 func (s *c03Storage) Profiles(
 	_ context.Context,
-	_ *profiledb.StorageProfilesRequest,
+	req *profiledb.StorageProfilesRequest,
 ) (resp *profiledb.StorageProfilesResponse, err error) {
 	s.calls++
-	if s.calls == 1 {
+	s.wasFull = append(s.wasFull, req.SyncTime.IsZero())
+	switch s.calls {
+	case 1:
 		return s.full, nil
+	case 2:
+		return s.partial, nil
+	default:
+		return &profiledb.StorageProfilesResponse{SyncTime: time.Unix(1_000_100+int64(s.calls), 0)}, nil
 	}
-
-	return s.partial, nil
 }
 
 func (s *c03Storage) CreateAutoDevice(
@@ -723,8 +745,12 @@ func c03Auth(policy, pw string) (a *agd.AuthSettings) {
 // c03NewDB builds a real profile database in the state of the case through
 // the Storage interface.
 func c03NewDB(c c03Case) (db *profiledb.Default, st *c03Storage) {
+	dev1Auth := c.Auth
+	if c.DB == "auth-changed" {
+		dev1Auth = "off"
+	}
 	dev1 := &agd.Device{
-		Auth:             c03Auth(c.Auth, c03PW1),
+		Auth:             c03Auth(dev1Auth, c03PW1),
 		ID:               c03Dev1,
 		LinkedIP:         netip.MustParseAddr(c03LinkedDev1),
 		Name:             "dev1",
@@ -799,15 +825,28 @@ func c03NewDB(c c03Case) (db *profiledb.Default, st *c03Storage) {
 			dev3b.LinkedIP = netip.MustParseAddr(c03LinkedDev1)
 			part.Devices = append(part.Devices, &dev3b)
 		}
+	case "auth-changed":
+		dev1b := *dev1
+		dev1b.Auth = c03Auth(c.Auth, c03PW1)
+		part.Profiles = []*agd.Profile{c03Profile(c03Prof1, []agd.DeviceID{c03Dev1, c03Auto1}, false, c.Auto)}
+		part.Devices = []*agd.Device{&dev1b}
 	default:
 		vrt.Fatalf("bad db state %q", c.DB)
+	}
+	if c.Via == "fullfail" {
+		if part == nil {
+			vrt.Fatalf("db state %q has no change to deliver", c.DB)
+		}
+		part = c03FullResponse(st.full, part)
+	} else if c.Via != "" {
+		vrt.Fatalf("bad via %q", c.Via)
 	}
 	st.partial = part
 
 	db, err := profiledb.New(&profiledb.Config{
 		Logger:               slogutil.NewDiscardLogger(),
 		Storage:              st,
-		ErrColl:              c03ErrColl,
+		ErrColl:              c03DBErrColl,
 		Metrics:              profiledb.EmptyMetrics{},
 		CacheFilePath:        "none",
 		FullSyncIvl:          100000 * time.Hour,
@@ -821,16 +860,85 @@ func c03NewDB(c c03Case) (db *profiledb.Default, st *c03Storage) {
 	if err = db.Refresh(ctx); err != nil {
 		vrt.Fatalf("full refresh: %v", err)
 	}
-	if part != nil {
+	switch {
+	case part == nil:
+		// No change.
+	case c.Via == "":
 		if err = db.Refresh(ctx); err != nil {
 			vrt.Fatalf("partial refresh: %v", err)
 		}
-		if st.calls != 2 {
+		if st.calls != 2 || st.wasFull[1] {
+			vrt.Fatalf("storage calls: %d, full: %v", st.calls, st.wasFull)
+		}
+	default:
+		// The full-synchronisation interval passes; the file cache cannot be
+		// written during the next synchronisation.  Refresh may report that,
+		// the data has been received all the same.
+		db.VerifC03ExpireFullSync()
+		db.VerifC03FailCacheStore(true)
+		err = db.Refresh(ctx)
+		if err != nil && !strings.Contains(err.Error(), "saving cache") {
+			vrt.Fatalf("full refresh with failing cache: %v", err)
+		}
+		db.VerifC03FailCacheStore(false)
+		if st.calls != 2 || !st.wasFull[1] {
+			vrt.Fatalf("second sync was not a full one: calls %d, full: %v", st.calls, st.wasFull)
+		}
+		for i := 0; i < c.After; i++ {
+			if err = db.Refresh(ctx); err != nil {
+				vrt.Fatalf("partial refresh %d after the full one: %v", i+1, err)
+			}
+		}
+		if st.calls != 2+c.After {
 			vrt.Fatalf("storage calls: %d", st.calls)
 		}
 	}
 
 	return db, st
+}
+
+// c03FullResponse turns the partial update delta into the complete response
+// of a full synchronisation: the records of base replaced by those of delta;
+// deleted profiles, devices that no profile lists any more and records of
+// devices of deleted profiles are absent from a full response.
+func c03FullResponse(base, delta *profiledb.StorageProfilesResponse) (full *profiledb.StorageProfilesResponse) {
+	full = &profiledb.StorageProfilesResponse{SyncTime: delta.SyncTime}
+	profs := map[agd.ProfileID]*agd.Profile{}
+	var order []agd.ProfileID
+	for _, l := range [][]*agd.Profile{base.Profiles, delta.Profiles} {
+		for _, p := range l {
+			if _, ok := profs[p.ID]; !ok {
+				order = append(order, p.ID)
+			}
+			profs[p.ID] = p
+		}
+	}
+	listed := map[agd.DeviceID]bool{}
+	for _, id := range order {
+		if p := profs[id]; !p.Deleted {
+			full.Profiles = append(full.Profiles, p)
+			for _, d := range p.DeviceIDs {
+				listed[d] = true
+			}
+		}
+	}
+	devs := map[agd.DeviceID]*agd.Device{}
+	var devOrder []agd.DeviceID
+	for _, l := range [][]*agd.Device{base.Devices, delta.Devices} {
+		for _, d := range l {
+			if _, ok := devs[d.ID]; !ok {
+				devOrder = append(devOrder, d.ID)
+			}
+			devs[d.ID] = d
+		}
+	}
+	for _, id := range devOrder {
+		if listed[id] {
+			full.Devices = append(full.Devices, devs[id])
+		}
+	}
+
+	return full
 }
 
 var c03Protos = map[string]agd.Protocol{
@@ -846,6 +954,13 @@ var (
 	c03Messages *dnsmsg.Constructor
 	c03ErrColl  = &agdtest.ErrorCollector{OnCollect: func(_ context.Context, err error) {
 		vrt.Fatalf("unexpected collected error: %v", err)
+	}}
+	// c03DBErrColl collects the errors of the profile database: a failing
+	// cache write is reported there.
+	c03DBErrColl = &agdtest.ErrorCollector{OnCollect: func(_ context.Context, err error) {
+		if !strings.Contains(err.Error(), "saving cache") {
+			vrt.Fatalf("unexpected collected profiledb error: %v", err)
+		}
 	}}
 	c03GeoIP = &agdtest.GeoIP{OnData: func(_ string, _ netip.Addr) (l *geoip.Location, err error) {
 		return nil, nil
@@ -910,7 +1025,8 @@ type c03Stack struct {
 // database state, that is, can be served by the same stack.
 func c03SameStack(a, b c03Case) (ok bool) {
 	return a.Proto == b.Proto && a.Linked == b.Linked && a.Ifaces == b.Ifaces &&
-		fmt.Sprint(a.Domains) == fmt.Sprint(b.Domains) && a.Auth == b.Auth && a.DB == b.DB && a.Auto == b.Auto
+		fmt.Sprint(a.Domains) == fmt.Sprint(b.Domains) && a.Auth == b.Auth && a.DB == b.DB && a.Auto == b.Auto &&
+		a.Via == b.Via && a.After == b.After
 }
 
 // c03NewStack builds the real stack for the settings part of c.
@@ -1139,7 +1255,7 @@ var (
 	c03Laddrs  = []string{c03SrvAddr + ":53", c03DedicatedDev1 + ":53", c03DedicatedNone + ":53"}
 	c03Domains = [][]string{nil, {"d.test"}, {"x.test", "d.test"}}
 	c03Auths   = []string{"off", "on", "doh-only"}
-	c03DBs     = []string{"normal", "deleted", "detached", "readdressed", "auto-moved", "moved", "deleted-nodevs", "noprofile", "reassigned"}
+	c03DBs     = []string{"normal", "deleted", "detached", "readdressed", "auto-moved", "moved", "deleted-nodevs", "noprofile", "reassigned", "auth-changed"}
 	c03Bools   = []bool{false, true}
 )
 
@@ -1266,6 +1382,36 @@ func c03GenPlain(d c03Dims, emit func(c03Case)) {
 	}
 }
 
+// c03GenCacheFail enumerates the cases in which the change of the database
+// state arrives through a full synchronisation whose file-cache write fails,
+// followed by 0 to 2 partial synchronisations without changes: per
+// transport the request alphabet of the sequence part x dev1 policy x every
+// database state that is a change.  The oracle is the one of every other
+// case: the data was synchronised.
+func c03GenCacheFail(emit func(c03Case)) {
+	for _, after := range []int{0, 1, 2} {
+		for _, db := range []string{"deleted", "detached", "moved", "readdressed", "reassigned", "auto-moved", "auth-changed"} {
+			for _, auth := range c03Auths {
+				for _, proto := range []string{"doh", "dot", "doq", "dns", "dnscrypt"} {
+					cfg := c03Case{
+						Proto: proto, Linked: true, Ifaces: true, Domains: []string{"d.test"},
+						Auth: auth, DB: db, Auto: true, Via: "fullfail", After: after,
+					}
+					for _, c := range c03SeqRequests(cfg) {
+						emit(c)
+					}
+					if proto == "doh" {
+						c := cfg
+						c.Raddr, c.Laddr = c03RemoteOther+":12345", c03SrvAddr+":53"
+						c.Path = "/dns-query/otr-prof1-MyPhone"
+						emit(c)
+					}
+				}
+			}
+		}
+	}
+}
+
 func TestVerifC03(t *testing.T) {
 	r := vrt.Start("C03")
 	c03Messages = agdtest.NewConstructor(t)
@@ -1322,6 +1468,7 @@ func TestVerifC03(t *testing.T) {
 	vrt.Part(r, "doh", func(emit func(c03Case)) { c03GenDoH(d, emit) }, run)
 	vrt.Part(r, "tls", func(emit func(c03Case)) { c03GenTLS(d, emit) }, run)
 	vrt.Part(r, "plain", func(emit func(c03Case)) { c03GenPlain(d, emit) }, run)
+	vrt.Part(r, "cachefail", c03GenCacheFail, run)
 
 	r.Finish()
 	os.Exit(0)
